@@ -103,16 +103,16 @@ PROPS = {
                 "widereduce: chosen 48-byte expander outputs (all ones, low/high half zero, high half all ones, multiples of n +-d, "
                 "n..3n +-d, limb patterns, random) fed to internal/scalar.HashToFieldElement; non-trivial = high half non-zero and value "
                 ">= n. expander (white-box): expandXMD(msg, DST, L) for L in {48, 96} against the model. Distinct by case hash. hash2scalar has the same length grid; sequence as for C08; widereduce also draws high parts equal to floor(2^k/c) +- d for c = 2^256 - n and fold-boundary limbs.",
-        "units": [unit("props", "^TestC09", tier(80000, 8, 900), tier(3200000, 16, 5400)),
-                  unit("internalpkg", "^TestC09", tier(800000, 8, 900), tier(16000000, 16, 5400), overlay="access")],
-        "checks_expected": ["C09/hash2scalar", "C09/sequence", "C09/widereduce", "C09/expander"],
+        "units": [unit("props", "^TestC09", tier(80000, 8, 900), tier(3200000, 16, 5400), expects=["C09/hash2scalar", "C09/sequence"]),
+                  unit("widepkg", "^TestC09", tier(800000, 8, 900), tier(16000000, 16, 5400), overlay="access", optional=True, expects=["C09/widereduce", "C09/expander"])],
+        "checks_expected": [],
     },
     "C11": {
         "rule": "sswu: field elements u from the boundary-biased generator in canonical and Montgomery domains, the three exceptional "
                 "values 0 and +-sqrt(-1/Z) as fixed cases and with probability 1/16; oracle = RFC 9380 6.6.2 (non-straight-line) and "
                 "E.1 isogeny in the model; also on-E', sgn0 rule, SSWU(-u) = -SSWU(u), image on secp256k1. isogeny (white-box): "
                 "points of E' built by the model from boundary-biased abscissae, both signs. Non-trivial = all (duplicates removed by hash). A third of the sswu cases solve u so that tv1 = Z u^2 or tv2 = tv1^2 + tv1 takes a boundary pattern; a third of the isogeny cases aim 1/x_den or y_den.",
-        "units": [unit("internalpkg", "^TestC11", tier(80000, 8, 900), tier(3200000, 16, 5400), overlay="access")],
+        "units": [unit("mappkg", "^TestC11", tier(80000, 8, 900), tier(3200000, 16, 5400), overlay="access")],
         "checks_expected": ["C11/sswu", "C11/isogeny"],
     },
     "C12": {
@@ -121,7 +121,7 @@ PROPS = {
                 "Montgomery-limb domains; equals also on pairs differing in exactly one Montgomery limb; sqrtratio with 1/4 forced "
                 "squares. Oracle math/big mod p, canonicity of stored limbs. Non-trivial = an operand > 1. bytes: 32-byte strings around "
                 "p (p+-d, one limb replaced, top of range) for the parser flag/value, 48-byte classes for the wide reduction. mul and square get a larger share; exhaustive sweep of the ~10^4 limb-pattern elements through square/neg/iszero/sgn0/bytes; parser fixed cases enumerate the word-wise neighbourhood of p; 48-byte classes include fold-boundary limbs and quotient-by-defect high parts.",
-        "units": [unit("internalpkg", "^TestC12", tier(800000, 8, 900), tier(16000000, 16, 5400, fuzztime=90), fuzz=["FuzzFieldOps"])],
+        "units": [unit("fieldpkg", "^TestC12", tier(800000, 8, 900), tier(16000000, 16, 5400, fuzztime=90), fuzz=["FuzzFieldOps"])],
         "checks_expected": ["C12/ops", "C12/bytes"],
     },
     "C10": {
